@@ -46,7 +46,7 @@ type stmtSliceContainerMatcher struct {
 func (c *matcherCompiler) compilePGoStmtList(slist *pgo.StmtList) Matcher {
 	var list []ast.Stmt
 	if len(slist.List) > 0 {
-		list = append(list, dotsStmt(c.patchStart))
+		list = append(list, dotsStmt(implicitDotsPos(c.patchStart)))
 		list = append(list, slist.List...)
 		list = append(list, dotsStmt(c.patchEnd))
 	}
@@ -132,7 +132,7 @@ type stmtSliceContainerReplacer struct {
 func (c *replacerCompiler) compilePGoStmtList(slist *pgo.StmtList) Replacer {
 	var list []ast.Stmt
 	if len(slist.List) > 0 {
-		list = append(list, dotsStmt(c.patchStart))
+		list = append(list, dotsStmt(implicitDotsPos(c.patchStart)))
 		list = append(list, slist.List...)
 		list = append(list, dotsStmt(c.patchEnd))
 	}
@@ -199,4 +199,19 @@ type stmtListField struct {
 
 func dotsStmt(pos token.Pos) ast.Stmt {
 	return &ast.ExprStmt{X: &pgo.Dots{Dots: pos}}
+}
+
+// implicitDotsPos is the position given to the implicit "..." in front of
+// the statements of a patch that starts at patchStart.
+//
+// Elisions are told apart, and paired between the two sides of a patch, by
+// position. A patch may itself begin with a "..." in the very first column
+// of its first line, which is exactly patchStart. The implicit elision
+// therefore sits one byte earlier, on the newline that ends the "@@" line
+// above the patch, where no explicit elision can be.
+func implicitDotsPos(patchStart token.Pos) token.Pos {
+	if patchStart > 1 {
+		return patchStart - 1
+	}
+	return patchStart
 }
